@@ -20,13 +20,26 @@ pub static GROW: Scenario = Scenario {
     chunk: 1,
 };
 
-const PAIRS: [(usize, usize); 3] = [(4 * 1024, 16 * 1024), (16 * 1024 + 4096, 128 * 1024), (64 * 1024, 256 * 1024)];
+// (red zone, segment size). The red zone has to cover what this harness itself runs between two checks
+// (unoptimised frames of the library, the bookkeeping comparisons and their formatting).
+const PAIRS: [(usize, usize); 3] = [(16 * 1024, 64 * 1024), (32 * 1024, 128 * 1024), (64 * 1024, 256 * 1024)];
+
+/// The caller's side of the contract: what runs between two checks (one frame of the recursion plus
+/// the bookkeeping frames) must fit into the red zone it asks for, and a fresh segment must hold it.
+fn fitting_frame(pair: usize, frame_kib: usize) -> usize {
+    match pair % 3 {
+        0 => 1,
+        1 => frame_kib.min(4),
+        _ => frame_kib,
+    }
+}
 
 fn gen_grow(g: &mut Rng, tier: Tier) -> J {
+    let pair = g.below(3);
     obj! {
         "where" => if g.chance(1, 2) { "coroutine" } else { "thread" },
-        "pair" => g.below(3),
-        "frame" => *g.pick(&[1u64, 4, 16]),
+        "pair" => pair,
+        "frame" => fitting_frame(pair as usize, *g.pick(&[1usize, 4, 16])),
         "depth" => g.range(1, if tier == Tier::Quick { 80 } else { 200 }),
         "panic_at" => if g.chance(1, 2) { g.range(1, 60) } else { 0 },
         "rounds" => g.range(1, 3),
@@ -172,7 +185,7 @@ fn body_grow(plan: &J) {
     let cfg = GrowCfg {
         red,
         size,
-        frame_kib: plan.gus("frame"),
+        frame_kib: fitting_frame(plan.gus("pair"), plan.gus("frame")),
         panic_at: plan.gus("panic_at"),
         in_co,
     };
